@@ -17,9 +17,17 @@ PROFILE_DYN = dict(call_dyn=30, call=8, get_item=10, del_item=4, set_value_dyn=6
                    new_cells=3, del_cells=2, set_pf=3, add_bases=2, remove_bases=1)
 
 
+# deletion-heavy schedule (C13 in the ItemSpace world): several instances alive,
+# then members / instances / bases taken away
+PROFILE_DYN_DELETE = dict(PROFILE_DYN, get_item=16, del_item=8, del_cells=10, new_cells=6,
+                          set_formula=4, set_ref=5, remove_bases=3, add_bases=3, set_pf=2)
+PROFILES_DYN = {"dyn": PROFILE_DYN, "dyn-delete": PROFILE_DYN_DELETE}
+
+
 class GenDyn(Gen):
     def __init__(self, seed, profile="dyn", **kw):
         super().__init__(seed, "eval", **kw)
+        self.dyn_profile = PROFILES_DYN.get(profile, PROFILE_DYN)
         self.nested = False
         self.pps = None
 
@@ -186,9 +194,10 @@ class GenDyn(Gen):
 
     def next_op(self):
         rng = self.rng
-        kinds = list(PROFILE_DYN)
+        prof = self.dyn_profile
+        kinds = list(prof)
         for _ in range(60):
-            kind = rng.choices(kinds, [PROFILE_DYN[k] for k in kinds])[0]
+            kind = rng.choices(kinds, [prof[k] for k in kinds])[0]
             try:
                 op = getattr(self, "mk_" + kind)()
             except (IndexError, KeyError, ValueError):
